@@ -9,7 +9,7 @@ import crash as C
 LEVEL = "fault_enumeration"
 COQ_TARGETS = ("props/C02.vo",)
 THEOREMS = ["C02_acknowledged_bytes_reach_the_os", "C02_journal_recovers_acknowledged_prefix",
-            "C02_acknowledged_write_is_journaled_partial", "C02_acknowledged_clear_is_journaled_partial"]
+            "C02_acknowledged_write_is_journaled_partial", "C02_acknowledged_clear_is_journaled_partial", "C02_unflushed_writes_are_in_a_live_journal"]
 
 
 def allowed_states(prog, states, last_line):
